@@ -178,21 +178,24 @@ def excaLookup (t : YYTab) (state token : Int) : Except YYFault Int := do
   let xj ← excaRow t token t.exca.size (xi + 2)
   t.Exca (xj + 1)
 
+/-- does state `st` shift the `error` token, and into which state -/
+def errShiftState (t : YYTab) (st : Int) : Except YYFault (Option Int) := do
+  let p ← t.Pact st
+  let n := p + t.errCode
+  if n ≥ 0 ∧ n < t.last then do
+    let ns ← t.Act n
+    let c ← t.Chk ns
+    pure (if c == t.errCode then some ns else none)
+  else pure none
+
 /-- the pop loop of error recovery: find a state on the stack that shifts `error` -/
 def errPop (t : YYTab) : List (Int × α) → List YYEv → Except YYFault (Option (Int × List (Int × α)) × List YYEv)
   | [], tr => .ok (none, tr)
-  | (st, v) :: rest, tr => do
-    let p ← t.Pact st
-    let n := p + t.errCode
-    let found : Option Int ←
-      if n ≥ 0 ∧ n < t.last then do
-        let ns ← t.Act n
-        let c ← t.Chk ns
-        pure (if c == t.errCode then some ns else none)
-      else pure none
-    match found with
-    | some ns => pure (some (ns, (st, v) :: rest), tr)
-    | none => errPop t rest (.pop st :: tr)
+  | (st, v) :: rest, tr =>
+    match errShiftState t st with
+    | .error e => .error e
+    | .ok (some ns) => .ok (some (ns, (st, v) :: rest), tr)
+    | .ok none => errPop t rest (.pop st :: tr)
 
 /-- goto after a reduction by a production with left-hand side `n`, `exposed` = the state now on top -/
 def gotoState (t : YYTab) (n exposed : Int) : Except YYFault Int := do
@@ -210,74 +213,98 @@ def popN : Nat → List (Int × α) → List α → Option (List α × List (Int
   | _ + 1, [], _ => none
   | n + 1, (_, v) :: st, acc => popN n st (v :: acc)
 
-/-- one round of the driver: from `yynewstate` to the next `yystack` / `yynewstate` / return -/
-def yyStep (t : YYTab) (sem : YYSem α σ) (input : Array Nat) (s : YYSt α σ) : Except YYFault (YYRes α σ) := do
-  let (yystate, _) ← match s.stack with
-    | [] => .error .underflow
-    | e :: _ => pure e
-  -- yynewstate
+/-- what one round of the driver decides from the tables and the lookahead -/
+inductive YYMove where
+  | shift (ns : Int)            -- valid shift into state ns
+  | accept
+  | discardEof                  -- error recovery meets the end of input: abort
+  | discard                     -- error recovery drops the lookahead
+  | recover (fresh : Bool)      -- pop states until one shifts `error` (fresh: a new error is reported first)
+  | reduce (yyn : Int)
+  deriving Repr, DecidableEq
+
+/-- the try-to-shift part of `yynewstate` -/
+def yyTryShift (t : YYTab) (input : Array Nat) (s : YYSt α σ) (yystate : Int) : Except YYFault (YYSt α σ × Option Int) := do
   let pn ← t.Pact yystate
-  -- try to shift
-  let (s, shifted) ←
-    if pn ≤ -(t.flag : Int) then pure (s, none)
+  if pn ≤ -(t.flag : Int) then pure (s, none)
+  else do
+    let (s, tk) ← ensureLA t input s
+    let n := pn + tk
+    if n < 0 ∨ n ≥ t.last then pure (s, none)
     else do
-      let (s, tk) ← ensureLA t input s
-      let n := pn + tk
-      if n < 0 ∨ n ≥ t.last then pure (s, none)
-      else do
-        let ns ← t.Act n
-        let c ← t.Chk ns
-        if c == tk then pure (s, some ns) else pure (s, none)
+      let ns ← t.Act n
+      let c ← t.Chk ns
+      if c == tk then pure (s, some ns) else pure (s, none)
+
+/-- `yydefault`: the default action of a state, through the exception table when it says -2 -/
+def yyDefault (t : YYTab) (input : Array Nat) (s : YYSt α σ) (yystate : Int) : Except YYFault (YYSt α σ × Int × Int) := do
+  let d ← t.Def yystate
+  if d == -2 then do
+    let (s, tk) ← ensureLA t input s
+    let r ← excaLookup t yystate tk
+    pure (s, d, r)
+  else pure (s, d, d)
+
+/-- the table-driven half of a round: reads the tables, may lex one token, touches nothing else -/
+def yyDecide (t : YYTab) (input : Array Nat) (s : YYSt α σ) (yystate : Int) : Except YYFault (YYSt α σ × YYMove) := do
+  let (s, shifted) ← yyTryShift t input s yystate
   match shifted with
-  | some ns =>
+  | some ns => pure (s, .shift ns)
+  | none =>
+    let (s, d, yyn) ← yyDefault t input s yystate
+    if d == -2 ∧ yyn < 0 then pure (s, .accept)
+    else if yyn == 0 then
+      if s.errflag == 3 then
+        if s.la.getD (-1) == (t.eofCode : Int) then pure (s, .discardEof) else pure (s, .discard)
+      else pure (s, .recover (s.errflag == 0))
+    else pure (s, .reduce yyn)
+
+/-- `yyVAL = yyS[yyp+1]`: `$1` when the right-hand side is not empty -/
+def yyDflt (sem : YYSem α σ) : List α → α
+  | a :: _ => a
+  | [] => sem.zero
+
+/-- the stack half of a round: carries out the move -/
+def yyApply (t : YYTab) (sem : YYSem α σ) (s : YYSt α σ) (yystate : Int) : YYMove → Except YYFault (YYRes α σ)
+  | .shift ns =>
     -- valid shift: yyVAL = lval; push
     let v := sem.tokVal (s.pos - 1)
     pure (.cont { s with la := none, yyval := v, stack := (ns, v) :: s.stack,
                          errflag := s.errflag - 1, trace := .shift (s.pos - 1) ns :: s.trace })
-  | none =>
-    -- yydefault
-    let d ← t.Def yystate
-    let (s, yyn) ←
-      if d == -2 then do
-        let (s, tk) ← ensureLA t input s
-        let r ← excaLookup t yystate tk
-        pure (s, r)
-      else pure (s, d)
-    if d == -2 ∧ yyn < 0 then
-      pure (.done 0 { s with trace := .accept :: s.trace })
-    else if yyn == 0 then
-      -- error ... attempt to resume parsing
-      let tk : Int := s.la.getD (-1)
-      if s.errflag == 3 then
-        -- no shift yet; clobber input char
-        if tk == t.eofCode then pure (.done 1 { s with trace := .abort :: .discard tk :: s.trace })
-        else pure (.cont { s with la := none, trace := .discard tk :: s.trace })
-      else
-        let s := if s.errflag == 0 then { s with nerrs := s.nerrs + 1, trace := .saw yystate tk :: s.trace } else s
-        let (r, tr) ← errPop t s.stack s.trace
-        match r with
-        | none => pure (.done 1 { s with errflag := 3, stack := [], trace := .abort :: tr })
-        | some (ns, st) =>
-          pure (.cont { s with errflag := 3, stack := (ns, s.yyval) :: st, trace := .errShift ns :: tr })
-    else
-      -- reduction by production yyn
-      let n ← t.R2 yyn
-      match popN n.toNat s.stack [] with
-      | none => .error .underflow
-      | some (args, rest) =>
-        let (exposed, _) ← match rest with
-          | [] => .error .underflow
-          | e :: _ => pure e
-        -- yyVAL = yyS[yyp+1]: `$1` when the right-hand side is not empty
-        let dfl := match args with
-          | a :: _ => a
-          | [] => sem.zero
-        let lhs ← t.R1 yyn
-        let ns ← gotoState t lhs exposed
-        match sem.reduce s.aux yyn args dfl s.pos with
-        | .error m => .error (.sem m)
-        | .ok (v, aux) =>
-          pure (.cont { s with yyval := v, stack := (ns, v) :: rest, trace := .reduce yyn yystate :: s.trace, aux := aux })
+  | .accept => pure (.done 0 { s with trace := .accept :: s.trace })
+  | .discardEof => pure (.done 1 { s with trace := .abort :: .discard (s.la.getD (-1)) :: s.trace })
+  | .discard => pure (.cont { s with la := none, trace := .discard (s.la.getD (-1)) :: s.trace })
+  | .recover fresh => do
+    let s := if fresh then { s with nerrs := s.nerrs + 1, trace := .saw yystate (s.la.getD (-1)) :: s.trace } else s
+    let (r, tr) ← errPop t s.stack s.trace
+    match r with
+    | none => pure (.done 1 { s with errflag := 3, stack := [], trace := .abort :: tr })
+    | some (ns, st) =>
+      pure (.cont { s with errflag := 3, stack := (ns, s.yyval) :: st, trace := .errShift ns :: tr })
+  | .reduce yyn => do
+    let n ← t.R2 yyn
+    match popN n.toNat s.stack [] with
+    | none => .error .underflow
+    | some (args, rest) =>
+      let (exposed, _) ← match rest with
+        | [] => .error .underflow
+        | e :: _ => pure e
+      let dfl := yyDflt sem args
+      let lhs ← t.R1 yyn
+      let ns ← gotoState t lhs exposed
+      match sem.reduce s.aux yyn args dfl s.pos with
+      | .error m => .error (.sem m)
+      | .ok (v, aux) =>
+        pure (.cont { s with yyval := v, stack := (ns, v) :: rest, trace := .reduce yyn yystate :: s.trace, aux := aux })
+
+/-- one round of the driver: from `yynewstate` to the next `yystack` / `yynewstate` / return -/
+def yyStep (t : YYTab) (sem : YYSem α σ) (input : Array Nat) (s : YYSt α σ) : Except YYFault (YYRes α σ) :=
+  match s.stack with
+  | [] => .error .underflow
+  | (yystate, _) :: _ =>
+    match yyDecide t input s yystate with
+    | .error e => .error e
+    | .ok (s1, m) => yyApply t sem s1 yystate m
 
 def yyInit (sem : YYSem α σ) (aux : σ) : YYSt α σ :=
   { stack := [(0, sem.zero)], pos := 0, la := none, errflag := 0, nerrs := 0, yyval := sem.zero, trace := [], aux := aux }
